@@ -1,8 +1,8 @@
 CONSTANTS
   Readers = {r1, r2}
-  Writers = {w1, w2}
-  MaxWrites = 3
-  MaxReads = 2
+  Writers = {w1}
+  MaxWrites = 2
+  MaxReads = 1
   Perpetual = FALSE
   MutNoBarrier = FALSE
   MutOnlyOldSlot = FALSE
